@@ -523,6 +523,7 @@ def run(ctx):
     ctx.guard("R04.5", "consumed", lambda: r04_5(ctx))
     for which in ("html", "xml"):
         ctx.guard("R04.5", "end-queue/" + which, lambda which=which: tr.end_uses_one_queue(ctx, "R04.5", which))
+        ctx.guard("R04.5", "end-runs/" + which, lambda which=which: tr.end_runs_before_eof(ctx, "R04.5", which))
     # the expect() at the end of finish_numeric is unreachable because every value that is not a scalar value was replaced
     # before: decided by the exhaustive value table of R14.4 (an outcome `None.expect(..)` for some number is a panic)
     ctx.rule("R04.8", "finish_numeric (HTML and XML) maps every 32-bit number and overflow flag to a character: its final expect() is never reached with None")
